@@ -76,6 +76,22 @@ def _cp(weights, factors):
     return CPTensor((tl.tensor(np.array(weights, dtype=float)), [tl.tensor(np.array(f, dtype=float)) for f in factors]))
 
 
+def _permute(ref, targets):
+    """cp_permute_factors plus a definitional measurement: does a returned tensor share memory with the caller's
+    tensor it was made from?  (_permute.alias: one flag per returned tensor)"""
+    from tensorly.cp_tensor import cp_permute_factors
+    tl_list = list(targets) if isinstance(targets, list) else [targets]
+    held = [[np.asarray(t.weights)] + [np.asarray(f) for f in t.factors] for t in tl_list]
+    out, perms = cp_permute_factors(ref, targets)
+    outs = out if isinstance(out, list) else [out]
+    _permute.alias = [bool(any(np.shares_memory(a, b) for a in [np.asarray(o.weights)] + [np.asarray(f) for f in o.factors] for b in h))
+                      for o, h in zip(outs, held)]
+    return out, perms
+
+
+_permute.alias = []
+
+
 def _rows(a):
     d, ex = ints(a)
     a = np.asarray(a)
@@ -127,14 +143,14 @@ def _exact_options(c, A, B, w):
     srcs = {"A": (np.ones(R), Ai), "B": (np.asarray(w, dtype=float), Bh)}
     for ref, target in (("A", "B"), ("B", "A")):
         rec = {"form": "single", "ref": ref, "target": target, "raised": False, "perm": [], "exact": True, "factors": [], "weights": [],
-               "eqf": False, "eqw": False}
+               "eqf": False, "eqw": False, "alias": False}
         try:
             mk = lambda wt, fs: CPTensor((tl.tensor(np.array(wt, dtype=float)), [tl.tensor(f.copy()) for f in fs]))
-            t, perms = cp_permute_factors(mk(*srcs[ref]), mk(*srcs[target]))
+            t, perms = _permute(mk(*srcs[ref]), mk(*srcs[target]))
             perm = [int(x) for x in np.asarray(perms[0]).ravel()]
             sw, sf = srcs[target]
             ok = len(perm) == R and all(0 <= x < R for x in perm)
-            rec.update(perm=perm, eqf=bool(ok and all(np.array_equal(np.asarray(f), b[:, perm]) for f, b in zip(t.factors, sf))),
+            rec.update(alias=bool(_permute.alias[0]), perm=perm, eqf=bool(ok and all(np.array_equal(np.asarray(f), b[:, perm]) for f, b in zip(t.factors, sf))),
                        eqw=bool(ok and np.array_equal(np.asarray(t.weights), sw[perm])))
             if target == "A":
                 facs, exact = [], True
@@ -174,7 +190,8 @@ def exec_exact(case):
         return {"id": case["id"], "kind": "exact", "cfg": c, "cong": [], "permute": [], "opts": {"cong": [], "corr": [], "permute": []},
                 "corr": _corr_records(Ac, Bc), "corr_swap": _corr_records(Bc, Ac)}
     w = np.array(c["w"], dtype=float)
-    if magnified:                                                       # the tensor keeps its size in the weights
+    if magnified and c["s"] != 7:                                       # the tensor keeps its size in the weights
+        # (not for pattern 7: 1e240 weights overflow inside cp_normalize on the unchanged tree -- C04's business)
         for g in mag:
             w = w / g
     ev = {"id": case["id"], "kind": "exact", "cfg": c, "cong": _cong_records(A, B, M, swaps=(False, True)),
@@ -183,9 +200,9 @@ def exec_exact(case):
     permute = []
     srcs = {"A": (np.ones(R), A), "B": (w, B)}
 
-    def rec(form, ref, target, fn):
+    def rec(form, ref, target, fn, ai=0):
         blank = {"form": form, "ref": ref, "target": target, "raised": True, "perm": [], "exact": True, "factors": [], "weights": [],
-                 "eqf": False, "eqw": False}
+                 "eqf": False, "eqw": False, "alias": False}
         try:
             t, perm = fn()
             perm = [int(x) for x in np.asarray(perm).ravel()]
@@ -202,26 +219,26 @@ def exec_exact(case):
                 wd, ex = ints(t.weights)
                 exact = exact and ex
             permute.append({"form": form, "ref": ref, "target": target, "raised": False, "perm": perm, "exact": bool(exact),
-                            "factors": facs, "weights": wd, "eqf": bool(eqf), "eqw": bool(eqw)})
+                            "factors": facs, "weights": wd, "eqf": bool(eqf), "eqw": bool(eqw), "alias": bool(_permute.alias[ai])})
         except Exception as ex:
             blank["exc"] = type(ex).__name__
             permute.append(blank)
 
     def single(ref, target):
         def fn():
-            t, perms = cp_permute_factors(_cp(*srcs[ref]), _cp(*srcs[target]))
+            t, perms = _permute(_cp(*srcs[ref]), _cp(*srcs[target]))
             return t, perms[0]
         return fn
     rec("single", "A", "B", single("A", "B"))
     rec("single", "B", "A", single("B", "A"))
     try:
-        ts, perms = cp_permute_factors(_cp(*srcs["A"]), [_cp(*srcs["B"]), _cp(*srcs["A"])])
+        ts, perms = _permute(_cp(*srcs["A"]), [_cp(*srcs["B"]), _cp(*srcs["A"])])
         rec("list", "A", "B", lambda: (ts[0], perms[0]))
-        rec("list", "A", "A", lambda: (ts[1], perms[1]))
+        rec("list", "A", "A", lambda: (ts[1], perms[1]), ai=1)
     except Exception as ex:
         for tg in ("B", "A"):
             permute.append({"form": "list", "ref": "A", "target": tg, "raised": True, "exc": type(ex).__name__, "perm": [], "exact": True,
-                            "factors": [], "weights": [], "eqf": False, "eqw": False})
+                            "factors": [], "weights": [], "eqf": False, "eqw": False, "alias": False})
     ev["permute"] = permute
     return ev
 
@@ -264,10 +281,10 @@ def exec_zeros(case):
     srcs = {"A": (np.ones(R), A), "B": (w, B)}
     for ref, target in (("A", "B"), ("B", "A")):
         rec = {"form": "single", "ref": ref, "target": target, "raised": False, "exc": "", "perm": [], "exact": True,
-               "factors": [], "weights": [], "eqf": False, "eqw": False}
+               "factors": [], "weights": [], "eqf": False, "eqw": False, "alias": False}
         try:
             with np.errstate(all="ignore"):
-                t, perms = cp_permute_factors(_cp(*srcs[ref]), _cp(*srcs[target]))
+                t, perms = _permute(_cp(*srcs[ref]), _cp(*srcs[target]))
             perm = [int(x) for x in np.asarray(perms[0]).ravel()]
             facs, exact = [], True
             for f in t.factors:
@@ -275,7 +292,7 @@ def exec_zeros(case):
                 facs.append(rows)
                 exact = exact and ex
             wd, ex = ints(t.weights)
-            rec.update(perm=perm, factors=facs, weights=wd, exact=bool(exact and ex))
+            rec.update(perm=perm, factors=facs, weights=wd, exact=bool(exact and ex), alias=bool(_permute.alias[0]))
         except Exception as ex:
             rec.update(raised=True, exc=type(ex).__name__)
         ev["permute"].append(rec)
@@ -334,23 +351,23 @@ def exec_generic(case):
     ev["corr"] = _corr_records(A, B)
     permute = []
 
-    def rec(form, t, perm):
+    def rec(form, t, perm, ai=0):
         perm = [int(x) for x in np.asarray(perm).ravel()]
         ok = len(perm) == R and all(0 <= x < R for x in perm)
         eqf = ok and all(np.array_equal(np.asarray(f), b[:, perm]) for f, b in zip(t.factors, B))
         eqw = ok and np.array_equal(np.asarray(t.weights), w[perm])
-        permute.append({"form": form, "raised": False, "perm": perm, "eqf": bool(eqf), "eqw": bool(eqw)})
+        permute.append({"form": form, "raised": False, "perm": perm, "eqf": bool(eqf), "eqw": bool(eqw), "alias": bool(_permute.alias[ai])})
     try:
-        t, perms = cp_permute_factors(_cp(np.ones(R), A), _cp(w, B))
+        t, perms = _permute(_cp(np.ones(R), A), _cp(w, B))
         rec("single", t, perms[0])
     except Exception as ex:
-        permute.append({"form": "single", "raised": True, "exc": type(ex).__name__, "perm": [], "eqf": False, "eqw": False})
+        permute.append({"form": "single", "raised": True, "exc": type(ex).__name__, "perm": [], "eqf": False, "eqw": False, "alias": False})
     try:
-        ts, perms = cp_permute_factors(_cp(np.ones(R), A), [_cp(w, B), _cp(w, B)])
+        ts, perms = _permute(_cp(np.ones(R), A), [_cp(w, B), _cp(w, B)])
         rec("list", ts[0], perms[0])
-        rec("list", ts[1], perms[1])
+        rec("list", ts[1], perms[1], ai=1)
     except Exception as ex:
-        permute.append({"form": "list", "raised": True, "exc": type(ex).__name__, "perm": [], "eqf": False, "eqw": False})
+        permute.append({"form": "list", "raised": True, "exc": type(ex).__name__, "perm": [], "eqf": False, "eqw": False, "alias": False})
     ev["permute"] = permute
     return ev
 
@@ -397,9 +414,10 @@ def _lev_out(mat):
     try:
         res = np.asarray(leverage_score_dist(tl.tensor(mat)))
         return {"raised": False, "dtype": str(res.dtype), "shape": [int(s) for s in res.shape],
-                "vals": [qi(v, S8) for v in res.ravel()], "nneg": bool(np.all(res >= 0))}
+                "vals": [qi(v, S8) for v in res.ravel()], "nneg": bool(np.all(res >= 0)),
+                "sumdev": qi(float(np.sum(res.astype(np.float64))) - 1.0, 10**12)}
     except Exception as ex:
-        return {"raised": True, "exc": type(ex).__name__, "dtype": "", "shape": [], "vals": [], "nneg": False}
+        return {"raised": True, "exc": type(ex).__name__, "dtype": "", "shape": [], "vals": [], "nneg": False, "sumdev": 0}
 
 
 def exec_lev(case):
